@@ -555,7 +555,13 @@ impl<'de> de::Deserializer<'de> for Value {
             Value::Integer(n) => visitor.visit_i64(n),
             Value::Float(n) => visitor.visit_f64(n),
             Value::String(v) => visitor.visit_string(v),
-            Value::Datetime(v) => visitor.visit_string(v.to_string()),
+            // Like the text deserializer, hand a date-time over as the one-field struct `Datetime`
+            // and `Value` are deserialized from, so that it does not degrade into a string
+            Value::Datetime(v) => {
+                let mut table = Table::new();
+                table.insert(datetime::FIELD.to_owned(), Value::String(v.to_string()));
+                visitor.visit_map(&mut MapDeserializer::new(table))
+            }
             Value::Array(v) => {
                 let len = v.len();
                 let mut deserializer = SeqDeserializer::new(v);
@@ -635,29 +641,9 @@ impl<'de> de::Deserializer<'de> for Value {
         visitor.visit_newtype_struct(self)
     }
 
-    fn deserialize_struct<V>(
-        self,
-        name: &'static str,
-        _fields: &'static [&'static str],
-        visitor: V,
-    ) -> Result<V::Value, crate::de::Error>
-    where
-        V: de::Visitor<'de>,
-    {
-        match self {
-            // `Datetime` is deserialized from a one-field struct holding its text
-            Value::Datetime(v) if name == datetime::NAME => {
-                let mut table = Table::new();
-                table.insert(datetime::FIELD.to_owned(), Value::String(v.to_string()));
-                visitor.visit_map(&mut MapDeserializer::new(table))
-            }
-            other => other.deserialize_any(visitor),
-        }
-    }
-
     serde::forward_to_deserialize_any! {
         bool u8 u16 u32 u64 i8 i16 i32 i64 f32 f64 char str string unit seq
-        bytes byte_buf map unit_struct tuple_struct
+        bytes byte_buf map unit_struct tuple_struct struct
         tuple ignored_any identifier
     }
 }
